@@ -478,9 +478,26 @@ pub open spec fn covers_direct<R: Reader<Offset = usize>>(h: Hdr<R>, ops: Seq<Op
 pub open spec fn direct_target<R: Reader<Offset = usize>>(h: Hdr<R>, op: Op<R>, t: K) -> bool {{
     {' || '.join(t for _, t in direct)}
 }}
-/// every element of deps from index n0 on is the direct target of one of the first k operations
+/// `t` may be recorded on account of `op`: it is its direct target, or `op` is a DW_OP_entry_value (whose nested walk is
+/// constrained by the same clause of the recursive call)
+pub open spec fn op_target<R: Reader<Offset = usize>>(h: Hdr<R>, op: Op<R>, t: K) -> bool {{
+    direct_target(h, op, t) || op is EntryValue
+}}
+/// every element of deps from index n0 on is recorded on account of one of the first k operations
 pub open spec fn only_refs<R: Reader<Offset = usize>>(h: Hdr<R>, ops: Seq<Op<R>>, k: int, deps: Seq<K>, n0: int) -> bool {{
-    forall|j: int| n0 <= j < deps.len() ==> exists|i: int| 0 <= i < k && direct_target(h, #[trigger] ops[i], #[trigger] deps[j])
+    forall|j: int| n0 <= j < deps.len() ==> exists|i: int| 0 <= i < k && op_target(h, #[trigger] ops[i], #[trigger] deps[j])
+}}
+pub proof fn lemma_contains_prefix(a: Seq<K>, b: Seq<K>)
+    requires a.is_prefix_of(b),
+    ensures forall|k: K| #![trigger a.contains(k)] a.contains(k) ==> b.contains(k), forall|j: int| 0 <= j < a.len() ==> #[trigger] b[j] == a[j],
+{{
+    assert forall|k: K| #![trigger a.contains(k)] a.contains(k) implies b.contains(k) by {{ let i = choose|i: int| 0 <= i < a.len() && a[i] == k; assert(b[i] == k); }}
+}}
+pub proof fn lemma_direct_mono<R: Reader<Offset = usize>>(h: Hdr<R>, ops: Seq<Op<R>>, a: Seq<K>, b: Seq<K>)
+    requires covers_direct(h, ops, a), a.is_prefix_of(b),
+    ensures covers_direct(h, ops, b),
+{{
+    lemma_contains_prefix(a, b);
 }}
 pub open spec fn cov1_EntryValue<R: Reader<Offset = usize>>(h: Hdr<R>, enc: Encoding, op: Op<R>, deps: Seq<K>) -> bool {{
     op matches Operation::EntryValue {{ expression: x }} ==> covers_direct(h, expr_ops::<R>(x.rv(), enc), deps)
@@ -569,17 +586,22 @@ use crate::vspec::RView;'''
     ex = op.item(r'^impl<R: Reader> Expression<R> \{', label='Expression')
     ex.keep_only(['operations'])
     ex.clean().own(['C19'])
-    ex.splice('operations', ret='res', ensures=['res.ops() == expr_ops::<R>(self.0.rv(), encoding)'])
+    ex.splice('operations', ret='res', ensures=['res.ops() == expr_ops::<R>(self.0.rv(), encoding)', 'res.view() == self.0.rv()'])
     sk.add('read::op', op.item(r'^pub struct OperationIter<R: Reader>', label='OperationIter(struct)').clean(rejrec=['R']))
     oi = op.item(r'^impl<R: Reader> OperationIter<R> \{', label='OperationIter')
     oi.keep_only(['next'])
     # body = Operation::parse (verified in batch `op`, [C01:progress] makes the ghost sequence finite); here contract-only
     oi.extbody(['next'])
     oi.clean()
-    oi.insert_members('    pub closed spec fn ops(&self) -> Seq<Operation<R>> { expr_ops::<R>(self.input.rv(), self.encoding) }')
+    oi.insert_members('''    pub closed spec fn ops(&self) -> Seq<Operation<R>> { expr_ops::<R>(self.input.rv(), self.encoding) }
+    pub closed spec fn view(&self) -> RView { self.input.rv() }''')
     oi.splice('next', ret='res', ensures=[
         'res matches Ok(Some(op)) ==> old(self).ops().len() > 0 && op == old(self).ops()[0] && final(self).ops() == old(self).ops().skip(1)',
-        '!(res matches Ok(Some(_))) ==> old(self).ops().len() == 0 && final(self).ops() == old(self).ops()'])
+        '!(res matches Ok(Some(_))) ==> old(self).ops().len() == 0 && final(self).ops() == old(self).ops()',
+        # the remaining input never grows, and the block of a decoded DW_OP_entry_value is a strict window of the bytes it
+        # was decoded from (batch `op`: [C07:decode-entry_value] window(b0, expression.rv(), p1, o0) with p1 >= 2, [C01:frame])
+        'final(self).view().len <= old(self).view().len',
+        'res matches Ok(Some(op)) ==> (op matches Operation::EntryValue { expression: x } ==> x.rv().len < old(self).view().len)'])
     sk.add('read::op', oi)
     sk.add('read::op', ex)
 
@@ -703,12 +725,12 @@ def populate_filter_unit(ctx, sk, wu):
     OPS0 = f'expr_ops::<R>(expression.0.rv(), {ENC})'
     ens = [f'[C19:expr-ref-{v}] res is Ok ==> covers_{ident(v)}({H}, {OPS0}, {FD})' for v, _, k in OP_REFS if k != 'nested']
     ens.append(f'[C19:expr-ref-EntryValue] res is Ok ==> covers_EntryValue({H}, {ENC}, {OPS0}, {FD})')
-    ens.append(f'[C19:expr-ref-only] only_refs({H}, {OPS0}, {OPS0}.len() as int, {FD}, {OD}.len() as int)')
+    ens.append(f'[C19:expr-ref-only] res is Ok ==> only_refs({H}, {OPS0}, {OPS0}.len() as int, {FD}, {OD}.len() as int)')
     ens.append(f'[C19:expr-info-section] res is Err ==> !({INFO})')
     inv = ['invariant',
            '    *self == *old(self), ops0 == ' + OPS0 + ', h == ' + H + ',',
            '    ops.ops().len() <= ops0.len(), ops.ops() == ops0.skip(ops0.len() - ops.ops().len()),',
-           f'    {OD}.is_prefix_of(deps@),']
+           f'    {OD}.is_prefix_of(deps@), ops.view().len <= expression.0.rv().len, // [C19:expr-terminates]']
     for v, _, k in OP_REFS:
         n = ident(v)
         if k != 'nested':
@@ -723,12 +745,23 @@ def populate_filter_unit(ctx, sk, wu):
                     assert(only_refs(h, ops0, k0, dprev, ''' + OD + '''.len() as int));
                     assert(only_refs(h, ops0, ops0.len() as int, dprev, ''' + OD + '''.len() as int)); }'''
     imp.splice('add_expression_refs', ret='res', ensures=ens + FRAME, loops={0: '\n'.join(inv)},
+               decreases='expression.0.rv().len',      # the recursive walk of DW_OP_entry_value blocks
+               after=[('self.add_expression_refs(deps, read::Expression(expression))?;', f'''proof {{
+                    lemma_contains_prefix(dprev, deps@);
+                    assert(cov1_EntryValue(h, {ENC}, ops0[k0], deps@));
+                    assert forall|i: int| 0 <= i < k0 implies cov1_EntryValue(h, {ENC}, #[trigger] ops0[i], deps@) by {{
+                        match ops0[i] {{
+                            read::Operation::EntryValue {{ expression: x }} => {{ lemma_direct_mono(h, expr_ops::<R>(x.rv(), {ENC}), dprev, deps@); }}
+                            _ => {{}}
+                        }}
+                    }}
+                }}''')],
                before=[('let mut ops = expression.operations', f'let ghost expression0 = expression.0; let ghost h = {H}; let ghost ops0 = {OPS0};'),
                        ('match op {', STEP)])
     insert_after_loop_body_end(imp, 'add_expression_refs', 0, '''proof {
                     assert(only_refs(h, ops0, k0, dprev, ''' + OD + '''.len() as int));
-                    assert forall|j: int| ''' + OD + '''.len() <= j < deps@.len() implies exists|i: int| 0 <= i < k0 + 1 && direct_target(h, #[trigger] ops0[i], #[trigger] deps@[j]) by {
-                        if j < dprev.len() { assert(deps@[j] == dprev[j]); let i = choose|i: int| 0 <= i < k0 && direct_target(h, #[trigger] ops0[i], #[trigger] dprev[j]); assert(direct_target(h, ops0[i], deps@[j])); } else { assert(direct_target(h, ops0[k0], deps@[j])); }
+                    assert forall|j: int| ''' + OD + '''.len() <= j < deps@.len() implies exists|i: int| 0 <= i < k0 + 1 && op_target(h, #[trigger] ops0[i], #[trigger] deps@[j]) by {
+                        if j < dprev.len() { assert(deps@[j] == dprev[j]); let i = choose|i: int| 0 <= i < k0 && op_target(h, #[trigger] ops0[i], #[trigger] dprev[j]); assert(op_target(h, ops0[i], deps@[j])); } else { assert(op_target(h, ops0[k0], deps@[j])); }
                     }
                     assert(only_refs(h, ops0, k0 + 1, deps@, ''' + OD + '''.len() as int));
                 }''')
